@@ -238,4 +238,24 @@ def GenRes.failsToCompile : GenRes → Bool
 def callSpec (i : IfaceSpec) (method : String) (args : Args) : Option Outcome :=
   (findMethod i method).map (fun m => .sent (specRequest i m args))
 
+/-! ## a call through a retrying chain
+
+The property speaks of THE request of a call ("whose verb, URL-escaped path, query, headers and body
+are …, with the ctx attached"). A middleware that sends it again sends that request again: every
+attempt carries the same verb, URL, headers and the complete JSON body, under the caller's context —
+its values, and its end as soon as the caller has cancelled it. -/
+
+def specAttempt (r : Request) (cancelAfter : Option Nat) (j : Nat) : Attempt :=
+  { verb := r.verb, path := r.path, query := r.query, headers := r.headers,
+    body := (match r.body with
+      | none => .absent
+      | some b => .whole b),
+    ctx := r.ctx,
+    ctxDone := r.ctx.isSome && cancelledBefore cancelAfter j }
+
+/-- F_retryBody: a request with a body (POST/PUT/PATCH with a struct parameter) on its second or a later
+    attempt — inside the property (it quantifies over the body verbs and says what the body of the
+    request is); RetryMiddleware re-sends the request object whose body reader is already at its end -/
+def F_retryBody (r : Request) (j : Nat) : Bool := r.body.isSome && decide (0 < j)
+
 end ShootVerif.Rest
